@@ -234,6 +234,8 @@ func VH_C06_StreamTiming() {
 	p0 := nondetInt64(0, 8589934591-400000)
 	d1 := nondetInt64(1, 100000)
 	d2 := nondetInt64(1, 100000)
+	// presentation times non-decreasing: reordered or wrapped 33-bit times are outside the claim (with them "the first
+	// presentation time of the stream" is ambiguous: the implementation orders the instances by start)
 	d3 := nondetInt64(1, 100000)
 	t := []int64{p0, p0 + d1, p0 + d1 + d2, p0 + d1 + d2 + d3}
 	vc06Schedule(k, t)
